@@ -1599,3 +1599,198 @@ Proof.
   eexists. split; [reflexivity|]. cbn [r_priv]. rewrite E0.
   destruct (priv =? 1)%N eqn:E1; [apply N.eqb_eq in E1; contradiction|reflexivity].
 Qed.
+
+(* ------------------------------------------------------------------ *)
+(* full-strength statements, their refutations by the faithful model, witnesses *)
+Definition step_coherent_statement : Prop :=
+  forall sm f x o, dinv sm x -> coherent_desc (fst (dstep_f sm x (f, o))).
+Definition ack_implies_stored_statement : Prop :=
+  forall sm f x sid defacs pub tru priv, dinv sm x -> dsess_uid sm sid <> 0%N ->
+    acked sid (snd (dstep sm f x (DSetDesc sid defacs pub tru priv))) ->
+    desc_stored (dst x) (dst (fst (dstep sm f x (DSetDesc sid defacs pub tru priv)))) (dsess_uid sm sid) defacs pub tru priv.
+Definition reject_no_change_statement : Prop :=
+  forall sm f x o, dinv sm x -> is_set_or_query o = true ->
+    rejected (dop_sid o) (snd (dstep sm f x o)) ->
+    dst (fst (dstep sm f x o)) = dst x /\ dca (fst (dstep sm f x o)) = dca x.
+
+(* one group topic: owner 1, subscriber 2 (private 7), user 3 unsubscribed earlier (soft-deleted row, private 23) *)
+Definition w_store : dstore :=
+  mkDStore 47 0 5 0 [12%N] 1 [mkDRow 1 255 255 20 false; mkDRow 2 47 47 7 false; mkDRow 3 47 47 23 true].
+Definition w_sm : dsessmap := [(1%N, (1%N, false)); (2%N, (2%N, false)); (3%N, (3%N, false)); (4%N, (1%N, true))].
+Definition w_init : dstate := mkDState w_store None 0.
+
+Lemma w_store_wf : wf_store w_store.
+Proof.
+  unfold wf_store, w_store. cbn [d_subs d_auth d_tags map r_user]. split; [|split; [reflexivity|cbn; auto]].
+  repeat constructor; cbn; intuition discriminate.
+Qed.
+Lemma w_init_inv : dinv w_sm w_init.
+Proof. split; [exact w_store_wf|exact I]. Qed.
+
+Lemma coherent_users_lookup x c u : coherent_desc x -> dca x = Some c ->
+  alookup u (k_users c) = alookup u (dload_users (d_subs (dst x))).
+Proof. intros [_ H] E. rewrite E in H. apply H. Qed.
+Lemma coherent_pub x c : coherent_desc x -> dca x = Some c -> k_pub c = d_pub (dst x).
+Proof. intros [_ H] E. rewrite E in H. apply H. Qed.
+
+(* T1: the owner is attached; session 2 (not attached) sets its private value *)
+Definition w_h1 : list (fault * dop) := [(NoFault, DSub 1 0)].
+Lemma w_x1_inv : dinv w_sm (fst (drun w_sm w_init w_h1)).
+Proof. apply drun_inv; [exact w_init_inv|]. cbn. auto. Qed.
+
+Lemma step_coherent_refuted_offline : ~ step_coherent_statement.
+Proof.
+  intros H. specialize (H w_sm NoFault _ (DSetDesc 2 None 0 0 9) w_x1_inv).
+  match type of H with coherent_desc ?x => remember x as y eqn:Ey end.
+  vm_compute in Ey.
+  match type of Ey with _ = {| dst := _; dca := Some ?c; dncalls := _ |} =>
+    pose proof (coherent_users_lookup y c 2%N H ltac:(subst y; reflexivity)) as Hl end.
+  subst y. vm_compute in Hl. discriminate.
+Qed.
+
+(* T2: the owner sets public and private in one request, the second write fails *)
+Lemma step_coherent_refuted_partly_stored : ~ step_coherent_statement.
+Proof.
+  intros H. specialize (H w_sm (FailAt 2) _ (DSetDesc 1 None 8 0 9) w_x1_inv).
+  match type of H with coherent_desc ?x => remember x as y eqn:Ey end.
+  vm_compute in Ey.
+  match type of Ey with _ = {| dst := _; dca := Some ?c; dncalls := _ |} =>
+    pose proof (coherent_pub y c H ltac:(subst y; reflexivity)) as Hl end.
+  subst y. vm_compute in Hl. discriminate.
+Qed.
+
+(* T3: user 3 subscribes again; the resurrected row keeps private 23, the cache holds null *)
+Lemma step_coherent_refuted_resubscribe : ~ step_coherent_statement.
+Proof.
+  intros H. specialize (H w_sm NoFault _ (DSub 3 0) w_x1_inv).
+  match type of H with coherent_desc ?x => remember x as y eqn:Ey end.
+  vm_compute in Ey.
+  match type of Ey with _ = {| dst := _; dca := Some ?c; dncalls := _ |} =>
+    pose proof (coherent_users_lookup y c 3%N H ltac:(subst y; reflexivity)) as Hl end.
+  subst y. vm_compute in Hl. discriminate.
+Qed.
+
+(* ack => stored: {set desc private=DEL} from a session that is not attached is acknowledged and the
+   DEL marker is stored as a value; {set desc public} on that path is acknowledged and dropped *)
+Lemma ack_implies_stored_refuted_del : ~ ack_implies_stored_statement.
+Proof.
+  intros H. specialize (H w_sm NoFault _ 2%N None 0%N 0%N 1%N w_x1_inv ltac:(discriminate)).
+  assert (Ha : acked 2 (snd (dstep w_sm NoFault (fst (drun w_sm w_init w_h1)) (DSetDesc 2 None 0 0 1)))) by (vm_compute; auto).
+  destruct (H Ha) as [_ [_ [_ [_ Hp]]]].
+  destruct (Hp ltac:(discriminate) (mkDRow 2 47 47 7 false) ltac:(reflexivity)) as [r' [Hr' Hv]].
+  vm_compute in Hr'. inversion Hr'; subst r'. vm_compute in Hv. discriminate.
+Qed.
+
+Lemma ack_implies_stored_refuted_public : ~ ack_implies_stored_statement.
+Proof.
+  intros H. specialize (H w_sm NoFault w_init 1%N None 8%N 0%N 9%N w_init_inv ltac:(discriminate)).
+  assert (Ha : acked 1 (snd (dstep w_sm NoFault w_init (DSetDesc 1 None 8 0 9)))) by (vm_compute; auto).
+  destruct (H Ha) as [_ [_ [Hp _]]]. vm_compute in Hp. discriminate.
+Qed.
+
+(* reject => no change: the 500 of T2 leaves the topic row changed *)
+Lemma reject_no_change_refuted : ~ reject_no_change_statement.
+Proof.
+  intros H. specialize (H w_sm (FailAt 2) _ (DSetDesc 1 None 8 0 9) w_x1_inv eq_refl).
+  assert (Hr : rejected 1 (snd (dstep w_sm (FailAt 2) (fst (drun w_sm w_init w_h1)) (DSetDesc 1 None 8 0 9)))).
+  { exists 500. vm_compute. split; [auto|discriminate]. }
+  destruct (H Hr) as [Hs _]. vm_compute in Hs. discriminate.
+Qed.
+
+(* a non-trivial history outside the triggers: subscribe, change the description, tags, faults, unsubscribe,
+   reload; the invariant holds at the end and the stored values are the acknowledged ones *)
+Definition w_h2 : list (fault * dop) :=
+  [(NoFault, DSub 1 0); (NoFault, DSub 2 0); (NoFault, DSetDesc 1 (Some (Some 15%N, None)) 8 0 9);
+   (FailAt 1, DSetDesc 1 None 3 0 0); (NoFault, DSetTags 1 [113%N; 10%N; 13%N; 1%N]); (NoFault, DSetDesc 2 None 0 0 1);
+   (NoFault, DSetDesc 4 None 0 6 0); (CrashAt 1, DSetTags 1 [11%N]); (NoFault, DSub 4 0); (NoFault, DGetDesc 4);
+   (NoFault, DSub 2 5); (NoFault, DLeave 2 true); (NoFault, DLeave 4 false); (NoFault, DUnload); (NoFault, DSub 3 23)].
+Lemma w_h2_benign : dbenign w_sm w_init w_h2.
+Proof. vm_compute. repeat split. Qed.
+Lemma w_h2_final :
+  let x := fst (drun w_sm w_init w_h2) in
+  dinv w_sm x /\ d_auth (dst x) = 15%N /\ d_pub (dst x) = 8%N /\ d_tags (dst x) = [10%N; 13%N] /\
+  dca x <> None /\ snd (drun w_sm w_init [(NoFault, DSub 1 0); (NoFault, DSetDesc 1 None 8 0 9)]) = [[(1%N, DCtrl 200)]; [(1%N, DCtrl 200)]].
+Proof.
+  cbv zeta. split; [apply drun_inv; [exact w_init_inv|exact w_h2_benign]|].
+  vm_compute. repeat split; try reflexivity; discriminate.
+Qed.
+
+(* ------------------------------------------------------------------ *)
+(* the store stays well-formed under every request and every fault plan, triggers included *)
+Lemma wf_sub_create s u w g p : wf_store s -> wf_store (dad_sub_create s u w g p).
+Proof.
+  intros [W1 [W2 W3]]. unfold dad_sub_create.
+  assert (H : wf_store (match dfind u (d_subs s) with
+                        | Some _ => ds_subs (dupd u (fun r => mkDRow (r_user r) w g (r_priv r) false)) s
+                        | None => ds_subs (fun l => l ++ [mkDRow u w g p false]) s end)).
+  { destruct (dfind u (d_subs s)) eqn:Ef; repeat split; cbn [ds_subs d_subs d_auth d_tags]; try assumption.
+    - rewrite dupd_users by reflexivity. exact W1.
+    - rewrite map_app. cbn [map r_user]. apply nodup_snoc; [exact W1|apply dfind_none, Ef]. }
+  destruct (is_owner (N.land g w)); [|exact H].
+  destruct H as [H1 [H2 H3]]. repeat split; assumption.
+Qed.
+
+Lemma this_user_sub_wf f s c n u root priv :
+  wf_store s -> wf_store (dh_st (fst (d_this_user_sub f s c n u root priv))).
+Proof.
+  intros Hwf. unfold d_this_user_sub.
+  destruct (alookup u (k_users c)) as [p0|].
+  - match goal with |- context [if ?need then call f n else (true, n)] => destruct need end.
+    + destruct (call f n) as [ok1 n1]. destruct ok1; cbn [negb]; [|exact Hwf].
+      repeat match goal with |- context [if ?b then _ else _] => destruct b end;
+        try (destruct (d_evict _ _ _ _)); cbn [fst dh_st]; apply wf_subs_update, Hwf.
+    + cbn [negb].
+      repeat match goal with |- context [if ?b then _ else _] => destruct b end;
+        try (destruct (d_evict _ _ _ _)); cbn [fst dh_st]; exact Hwf.
+  - destruct (max_subs <=? Z.of_nat (length (k_users c))); [exact Hwf|].
+    destruct (call f n) as [ok1 n1]. destruct ok1; cbn [negb]; [|exact Hwf].
+    match goal with |- context [if negb (is_joiner ?g) then _ else _] => destruct (negb (is_joiner g)) end; [exact Hwf|].
+    match goal with |- context [if ?need then call f n1 else (true, n1)] => destruct need end.
+    + destruct (call f n1) as [ok2 n2]. destruct ok2; cbn [negb]; [|exact Hwf].
+      match goal with |- context [if ?b then _ else _] => destruct b end;
+        try (destruct (d_evict _ _ _ _)); cbn [fst dh_st]; apply wf_sub_create, Hwf.
+    + cbn [negb].
+      match goal with |- context [if ?b then _ else _] => destruct b end;
+        try (destruct (d_evict _ _ _ _)); cbn [fst dh_st]; exact Hwf.
+Qed.
+
+Lemma sub_reply_wf f s c n sid u root priv : wf_store s -> wf_store (dh_st (d_sub_reply f s c n sid u root priv)).
+Proof.
+  intros Hwf. unfold d_sub_reply. pose proof (this_user_sub_wf f s c n u root priv Hwf) as H.
+  destruct (d_this_user_sub f s c n u root priv) as [h r]. cbn [fst] in H. destruct r; exact H.
+Qed.
+
+Lemma dstep_wf sm f x o : dinv sm x -> wf_store (dst (fst (dstep sm f x o))).
+Proof.
+  intros [Hwf Hca]. unfold dstep.
+  destruct o as [sid priv|sid unsub|sid defacs pub tru priv|sid tags|sid|sid| |]; cbn [dop_sid].
+  - destruct (dsess_uid sm sid =? 0)%N; [exact Hwf|].
+    destruct (dca x) as [c|].
+    + destruct (dattached c sid); [exact Hwf|]. apply sub_reply_wf, Hwf.
+    + destruct (try_load_cases f (dst x) 0) as [[n1 E]|[n1 E]]; rewrite E; [exact Hwf|]. apply sub_reply_wf, Hwf.
+  - destruct (dsess_uid sm sid =? 0)%N; [exact Hwf|].
+    destruct (dca x) as [c|]; [|exact Hwf].
+    destruct (dattached c sid); [|exact Hwf].
+    destruct unsub; [|exact Hwf]. apply (leave_unsub_inv sm f (dst x) c 0 sid _ Hwf Hca).
+  - destruct (dsess_uid sm sid =? 0)%N; [exact Hwf|].
+    destruct (dca x) as [c|].
+    + destruct (dattached c sid); [apply set_desc_wf; [exact Hwf|apply Hca]|apply offline_set_desc_wf, Hwf].
+    + apply offline_set_desc_wf, Hwf.
+  - destruct (dsess_uid sm sid =? 0)%N; [exact Hwf|].
+    destruct (dca x) as [c|]; [|exact Hwf].
+    destruct (dattached c sid); [|exact Hwf]. apply (set_tags_inv sm f (dst x) c 0 sid _ tags Hwf Hca).
+  - destruct (dsess_uid sm sid =? 0)%N; [exact Hwf|].
+    destruct (dca x) as [c|]; [destruct (dattached c sid); [exact Hwf|]|]; cbn [fst dst]; rewrite offline_get_desc_st; exact Hwf.
+  - destruct (dsess_uid sm sid =? 0)%N; [exact Hwf|].
+    destruct (dca x) as [c|]; [|exact Hwf]. destruct (dattached c sid); exact Hwf.
+  - destruct (dca x) as [c|]; [|exact Hwf]. destruct (k_sess c); exact Hwf.
+  - exact Hwf.
+Qed.
+
+(* after a crash during ANY request (triggers included) the state is coherent: the cache is gone
+   and the next load builds it from the store *)
+Theorem crash_coherent sm k x o : dinv sm x -> dinv sm (fst (dstep_f sm x (CrashAt k, o))).
+Proof.
+  intros Hi. pose proof (dstep_wf sm (CrashAt k) x o Hi) as H. unfold dstep_f. cbn [fst snd].
+  destruct (dstep sm (CrashAt k) x o) as [x1 o1]. cbn [fst] in *. split; [exact H|exact I].
+Qed.
